@@ -39,6 +39,16 @@ def fockProbs [Zero K] [Add K] [Div K] (D n : Nat) (measure : List Nat) (ρ : Te
 /-- index assignment of a full diagonal entry: photon number `val m` on the row and the column axis of mode `m` -/
 def diagIdx (val : Nat → Nat) : Idx := fun a => val (a / 2)
 
+/-- assignment that puts photon number `v` on both axes of mode `m` for every `(m, v)` of `sel`, `0` elsewhere -/
+def assign : List (Nat × Nat) → Idx
+  | [] => fun _ => 0
+  | s :: sel => upd (upd (assign sel) (2 * s.1) s.2) (2 * s.1 + 1) s.2
+
+/-- **specification**: Born probability (unnormalised) that every mode `m` of `sel` holds `v` photons, in an `n`-mode
+state `ρ` with cutoff `D`: the full diagonal summed over the photon numbers of all other modes -/
+def bornProb [Zero K] [Add K] (D n : Nat) (ρ : Tens K) (sel : List (Nat × Nat)) : K :=
+  traceOver D ((List.range n).filter fun i => !(sel.map (·.1)).contains i) ρ (assign sel)
+
 /-! ### bosonic rejection sampler (real weights, real means) -/
 
 /-- one Gaussian peak evaluated at the proposed point: weight, prefactor `1/sqrt(det(2π Σ))`, `exp(-½ q)` -/
